@@ -9,5 +9,6 @@ CONSTANTS
  FixNifty = TRUE
  AtomicAdopt = TRUE
  RefreshExpected = TRUE
+ ReleaseLast = TRUE
 INVARIANT NotWitnessRace
 CHECK_DEADLOCK FALSE
